@@ -700,6 +700,20 @@ func c10GenSmtp(r *vh.Rng, big bool, edge int) string {
 func TestVerifC10Smtp(t *testing.T) {
 	out := vh.Open("c10_smtp")
 	defer out.Close()
+	replay := vh.Replay()
+	if replay != nil {
+		// nothing to replay here: do not start (and at once close) an endpoint - go-smtp's Close waits
+		// for ever for a listener whose Serve goroutine has not registered it yet
+		n := 0
+		for _, op := range replay {
+			if strings.HasPrefix(op, "C10 smtp ") {
+				n++
+			}
+		}
+		if n == 0 {
+			return
+		}
+	}
 	var ep *c10Endpoint
 	var err error
 	for try := 0; try < 5; try++ { // the port is picked, released and re-bound: another process may grab it in between
@@ -712,7 +726,7 @@ func TestVerifC10Smtp(t *testing.T) {
 		t.Fatal(err)
 	}
 	defer ep.close()
-	if ops := vh.Replay(); ops != nil {
+	if ops := replay; ops != nil {
 		for _, op := range ops {
 			if strings.HasPrefix(op, "C10 smtp ") {
 				c10Smtp(out, ep, op)
